@@ -1,14 +1,15 @@
 """C10 — map-matched positions lie on a real edge within the search radius
-(tracklib/algo/mapping.py mapOnNetwork / __mapOnNetwork / __distToNode / __projOnTrack; the candidate edge
-numbers come from the real spatial index and the decoded indices from the real HMM — both are parameters of
-the model, which covers the candidate construction, the flag state, the inference column and the track)."""
-import json, math
+(tracklib/algo/mapping.py mapOnNetwork / __mapOnNetwork / __distToNode / __projOnTrack, the construction path
+core/network.py addNode / addEdge + computeAbsCurv on the edge geometries, the spatial index through the model of C08).
+Two models are run on every case: the core (Model/MapMatch: candidate loop, flag state, inference column) on the real
+candidate lists in their real order with the real decoded indices, and the composed one (Model/MapMatchNet: network
+construction, index, search unit, candidates, front end) which is only told which edge the real decoder chose."""
+import json, math, os, tempfile
 from fractions import Fraction as F
 from engine import Prop, fbits, bitsf, close, err_kind
 from props.c20 import fr, seg_d2, segments, degenerate
 
 TOL = 1e-9
-OVERFLOW_JUMP = 7000.0   # exp(-(dtopo - dgeom)/10) overflows when dgeom - dtopo > ~7097
 
 
 def fsqrt(x):
@@ -31,32 +32,67 @@ class P(Prop):
         (M, "TV.C10.timestamps_preserved", "every mode: count and timestamps unchanged"),
         (M, "TV.C10.decoder_in_range_total", "a decoder answering in-range indices never makes the backward step fail"),
         (M, "TV.C10.viterbi_decoder_total", "with the Viterbi model of C09 over any cost tables, the decoded indices are in range (candidate lists are never empty), so the backward step never fails"),
+        (M, "TV.C10.abs_curv_prefix_lengths", "computeAbsCurv on an edge geometry: abs_curv[i] is the length of the geometry up to vertex i, the last value is the edge length"),
+        (M, "TV.C10.dist_to_nodes_along_edge", "__distToNode of a point of segment i: length of the geometry from its first vertex to the point, resp. from the point to its last vertex; they add up to the edge length"),
+        (M, "TV.C10.addEdge_keeps_geometry", "Network.addEdge stores the geometry and its abs_curv column as given, leaves every other edge and every registered node (first coordinates) untouched"),
+        (M, "TV.C10.built_network_edges", "a network built by addEdge calls with distinct edge ids (index attached after or before the last edges) has, under edge number n, the n-th geometry handed over, unchanged"),
+        (M, "TV.C10.states_flag_or_matched", "STATES[i] is the flag state alone or a non-empty list of matched states (existing edge number, point on that geometry, d < radius, along-edge distances adding up to the length)"),
+        (M, "TV.C10.flag_iff_out_of_reach", "STATES[i] contains a flag state iff no candidate edge projects strictly within the radius; a matched state never has edge number -1"),
+        (M, "TV.C10.front_end_sound", "mapOnNetwork on a bare track or a collection, any decoder, any index attached to the network: every processed track keeps its observations and every hmm_inference entry is the flag state or matched on the geometry stored in the network"),
+        (M, "TV.C10.front_end_tracks_independent", "the result of the j-th track is the result of matching it alone; a bare Track = collection of one; transition_cost / debug / verbose influence nothing; without exception every track is processed"),
+        (M, "TV.C10.front_end_track_preserved", "observations unchanged; obs_noise / hmm_inference / hmm_cost created when absent, existing names kept; an existing obs_noise column keeps its content"),
+        (M, "TV.C10.matched_on_built_network", "on a network built by addEdge from computeAbsCurv-made edges with distinct ids, a matched state names the number n of an edge handed over and lies on THAT geometry, with along-edge distances adding up to its length"),
+        (M, "TV.C10.viterbi_inference", "with Viterbi.decode (C09: decode_succeeds, decoded_valid) over any cost tables sized like the candidate lists: no exception, hmm_inference[k] is one of STATES[k]"),
+        (M, "TV.C10.near_edge_is_candidate", "with the index of C08 (neighborhood_complete): an edge with a point within d of the observation is a candidate whenever the unit computed by __mapOnNetwork is groundDistanceToUnits(d)"),
     ]
     partial = []
-    open_statements = ["the spatial index (candidate edge numbers) and the HMM decoder (indices) are parameters: completeness of the candidates (no edge within the radius is missed) "
-                       "is not claimed by the property and not proved; exceptions (ZeroDivisionError on vertical segments, OverflowError in the transition model) are outside the "
-                       "theorems and reported as findings"]
-    modelled = ("algo/mapping.py __mapOnNetwork: candidate loop (projection on the edge geometry, d < search_radius, __distToNode from abs_curv), flag state, "
-                "hmm_inference from the decoded indices, created feature columns, positions untouched for mode 1; computeAbsCurv (ds + INTEGRATOR). "
-                "Parameters of the model (taken from the real run): spatial_index.neighborhood results, HMM-decoded state indices")
-    rule = ("grid-like and random networks on an integer lattice and on two-decimal coordinates (oblique / horizontal / vertical, 2..4-vertex edges, arbitrary "
-            "edge and node ids), spatial index of several cell sizes and margins, tracks of 1..7 observations on / near / far from the network (outside the index "
-            "included), several radii and noise values; SESSION stream: on one network / index object, 1..3 calls of mapOnNetwork, the first on a "
-            "TrackCollection of 2..3 tracks of different lengths that are not co-located, later calls on collections or bare tracks, tracks matched again "
-            "(their obs_noise / hmm_inference / hmm_cost columns already exist), user features with those names, radius and noise changing between calls; "
-            "the oracle is applied to every track of every call through its own hmm_inference column, and the candidate lists the decoder is given for "
-            "each track (captured at HMM.estimate) are compared with the model's. non-trivial = at least one observation within the radius of an edge")
-    trusted = ["the candidate edge numbers (SpatialIndex.neighborhood) and the decoded indices (HMM.estimate) are inputs of the model, captured from the real call "
-               "(instance / class attributes wrapped for the duration of a case, no source hook); the candidate lists the decoder receives for each track are read through "
-               "the HMM's own state function at the entry of HMM.estimate"]
+    open_statements = ["completeness of the candidates in terms of the search radius (no edge within the radius is missed) is not claimed by the property and does not hold in general: "
+                       "__mapOnNetwork derives the search unit from the NUMBERS of cells (ceil(search_radius / min(csize, lsize))), not from the cell size; near_edge_is_candidate states "
+                       "the hypothesis under which C08's completeness carries over",
+                       "the decoder's choice among the candidates (which sound candidate is inferred) is C09's subject; here only that the inferred state is one of STATES[k]",
+                       "exceptions are outside the theorems (every statement is about a call that returns): ZeroDivisionError of the projection on a vertical segment (finding D16, class "
+                       "vertical-segment-zerodiv), UnboundLocalError on a candidate edge all of whose vertices coincide (class zero-length-edge-unbound), AnalyticalFeatureError on a track "
+                       "without observation",
+                       "IEEE rounding: the theorems are over an ordered field with an exact square root; the float behaviour is sampled by the transfer check (tolerance 1e-9 relative)"]
+    modelled = ("algo/mapping.py mapOnNetwork (bare track / collection / iterable, gps_noise, transition_cost, search_radius, debug, verbose), __mapOnNetwork (obs_noise column, search unit, "
+                "neighborhood call, candidate loop: projection on EDGES[getEdgeId(elem)].geom, d < search_radius, __distToNode from abs_curv; flag state; hmm_inference from the decoded "
+                "indices; created feature columns; positions untouched for mode 1), __distToNode, __projOnTrack; core/network.py Node, Edge, Network.addNode / addEdge (node table, EDGES, "
+                "__idx_edges, registration in an attached index), getEdgeId, getNumberOfEdges, __getitem__, bbox; algo/cinematics.py computeAbsCurv (ds + INTEGRATOR) on edge geometries; "
+                "core/spatial_index.py through Model/Grid (C08): constructor on the network, addFeature, neighborhood(coord, unit). Parameter of the model (taken from the real run): the "
+                "HMM-decoded states (given to the composed model as edge numbers, to the core model as indices); the core model is also run on the real candidate lists in their real order")
+    rule = ("grid-like and random networks on an integer lattice and on two-decimal coordinates (oblique / horizontal / vertical, 2..4-vertex edges, arbitrary edge and node ids); REAL "
+            "stream: networks as data delivers them — node ids shared by edges whose end vertices differ (tolerance-merged, 0.01..0.6), separate node tables, edges with up to 13 vertices, "
+            "repeated vertices, zero-length edges, loops, parallel edges, one-way edges, two components — built by hand (Node from the end positions), from a node table, through "
+            "NetworkReader.readFromFile (CSV/WKT, string ids), or with the index attached before the last edges (addEdge registers them), integer or string ids; spatial index of several "
+            "cell sizes and margins, tracks of 1..7 observations (a third of the real stream: 1..2) on / near / far from the network, exactly on nodes and vertices, outside the index "
+            "extent, several radii and noise values; SESSION stream: on one network / index object, 1..3 calls of mapOnNetwork, the first on a TrackCollection of 2..3 tracks of different "
+            "lengths that are not co-located, later calls on collections, plain lists or bare tracks, tracks matched again (their obs_noise / hmm_inference / hmm_cost columns already "
+            "exist), user features with those names, radius and noise changing between calls, transition_cost / debug / verbose / positional arguments, for 30 % of the sessions the module "
+            "was used before on another (one-edge) network; the oracle is applied to every "
+            "track of every call through its own hmm_inference column and measures on Edge.geom as read back from the network after the call; the network state after construction "
+            "(geometries, abs_curv columns, node table, edge ends, grid) and per track STATES (as sets, and in the real order), hmm_inference, feature names, obs_noise column and "
+            "positions are compared with the model's. non-trivial = at least one observation within the radius of an edge")
+    trusted = ["the decoded states (HMM.estimate) are an input of the model, captured from the real call (class attribute wrapped for the duration of a case, no source hook); the candidate "
+               "lists the decoder receives for each track are read through the HMM's own state function at the entry of HMM.estimate; the real candidate order (SpatialIndex.neighborhood "
+               "returns list(set)) is captured by wrapping the instance attribute and fed to the core model, the composed model computes the candidates itself (compared as sets)"]
 
     def setup(self):
         import tracklib
         from tracklib import Obs, ObsTime, ENUCoords, Track, TrackCollection, Network, Node, Edge, SpatialIndex, computeAbsCurv
+        from tracklib import NetworkReader, NetworkFormat
         from tracklib.algo import mapping
         self.tl = dict(Obs=Obs, ObsTime=ObsTime, E=ENUCoords, Track=Track, Network=Network, Node=Node, Edge=Edge,
-                       SI=SpatialIndex, curv=computeAbsCurv, mapping=mapping, TC=TrackCollection)
+                       SI=SpatialIndex, curv=computeAbsCurv, mapping=mapping, TC=TrackCollection,
+                       NR=NetworkReader, NF=NetworkFormat)
         self._cache = {}
+        # classes of findings listed for this property (known_findings.json is read, never written): inputs of a class that
+        # is not listed are generated only where they cannot reach the defect
+        self.listed = set()
+        try:
+            with open(os.path.join(os.path.dirname(os.path.dirname(os.path.dirname(os.path.abspath(__file__)))), "known_findings.json")) as fh:
+                self.listed = {e.get("class") for e in json.load(fh).get("entries", []) if e.get("property") == "C10" and e.get("status") == "finding"}
+        except Exception:
+            pass
 
     # ------------------------------------------------------------------ generators
     def exhaustive_scopes(self, tier):
@@ -76,14 +112,18 @@ class P(Prop):
         n = 15000 if tier == "thorough" else 3000
         for k in range(n):
             out.append(self.random_case(rng, ["grid", "random", "decimal"][k % 3]))
+        # networks as real data delivers them (merged nodes, long / repeated / zero-length geometries, loops, parallel and
+        # one-way edges, components), through every construction path
+        for k in range(15000 if tier == "thorough" else 3000):
+            out.append(self.real_case(rng))
         for k in range(40 if tier == "thorough" else 6):
             c = self.random_case(rng, "grid")
             c["track"] = c["track"][:2] + [[c["track"][0][0] + 9000.0, c["track"][0][1] + 500.0], [c["track"][0][0] + 19000.0, c["track"][0][1]]]
-            c["stream"] = "farjump"
+            c["stream"] = "farjump"      # regression stream of fix 8080b8c (the transition likelihood overflowed on jumps > ~7.1 km)
             out.append(c)
         # sessions: collections of several tracks, several calls on the same objects, re-matched tracks
         for k in range(6000 if tier == "thorough" else 900):
-            out.append(self.random_session(rng, ["grid", "random", "decimal"][k % 3]))
+            out.append(self.random_session(rng, ["grid", "random", "decimal", "real"][k % 4]))
         return out
 
     def coord(self, rng, stream):
@@ -148,30 +188,128 @@ class P(Prop):
         eids = rng.sample(range(1, 60), len(edges))
         for e, i in zip(edges, eids):
             e["id"] = i
-        xs = [p[0] for e in edges for p in e["g"]]
-        ys = [p[1] for e in edges for p in e["g"]]
-        ax, ay = max(xs) - min(xs), max(ys) - min(ys)
-        margin = rng.choice([0.05, 0.15, 0.3, 0.6])
-        # cell sizes: keep at least one cell per side (the index divides the extent by the cell size)
-        ex, ey = max(ax, 1e-9) * (1 + margin), max(ay, 1e-9) * (1 + margin)
-        if ax == 0 or ay == 0:
-            # degenerate extent in one direction: the index cannot be built with explicit cell sizes; widen with an oblique stub edge
-            edges.append({"s": 900, "t": 901, "id": 99, "g": [[min(xs), min(ys)], [min(xs) + 2.0, min(ys) + 1.0]]})
-            xs += [min(xs) + 2.0]; ys += [min(ys) + 1.0]
-            ax, ay = max(xs) - min(xs), max(ys) - min(ys)
-            ex, ey = ax * (1 + margin), ay * (1 + margin)
-        res = [min(rng.choice([1.0, 2.0, 3.0, 5.0, 10.0]), ex), min(rng.choice([1.0, 2.0, 3.0, 5.0, 10.0]), ey)]
-        if rng.random() < 0.1 and 0.02 < ax / ay < 50:
-            res = None
+        res, margin, ax = self.index_params(rng, edges)
         radius = rng.choice([0.5, 1.0, 2.0, 3.0, 5.5, 10.0])
         track = self.gen_track(rng, stream, edges, radius, ax)
         return {"kind": "net", "stream": stream, "edges": edges, "res": res, "margin": margin, "track": track,
                 "radius": radius, "noise": rng.choice([1.0, 5.0, 50.0])}
 
-    def gen_track(self, rng, stream, edges, radius, ax, home=None, avoid_vertical=False):
+    def index_params(self, rng, edges, upto=None):
+        """cell sizes and margin of the spatial index for these geometries (the first `upto` of them when given: the index of
+        the `late` construction path is built before the other edges exist); widens a flat extent with an oblique stub edge
+        (the index cannot be built on a flat extent: C08's domain)"""
+        first = edges if upto is None else edges[:upto]
+        xs = [p[0] for e in first for p in e["g"]]
+        ys = [p[1] for e in first for p in e["g"]]
+        ax, ay = max(xs) - min(xs), max(ys) - min(ys)
+        margin = rng.choice([0.05, 0.15, 0.3, 0.6])
+        if ax == 0 or ay == 0:
+            edges.insert(len(first), {"s": 900, "t": 901, "id": 99, "g": [[min(xs), min(ys)], [min(xs) + 2.0, min(ys) + 1.0]]})
+            xs += [min(xs) + 2.0]; ys += [min(ys) + 1.0]
+            ax, ay = max(xs) - min(xs), max(ys) - min(ys)
+        ex, ey = ax * (1 + margin), ay * (1 + margin)
+        res = [min(rng.choice([1.0, 2.0, 3.0, 5.0, 10.0]), ex), min(rng.choice([1.0, 2.0, 3.0, 5.0, 10.0]), ey)]
+        if rng.random() < 0.1 and 0.02 < ax / ay < 50:
+            res = None
+        return res, margin, ax
+
+    def real_case(self, rng):
+        """a network as real data delivers it: node ids shared by edges whose end vertices differ slightly (tolerance-merged
+        nodes, or a separate node table), edges with many vertices, repeated vertices, zero-length edges, loops, parallel edges,
+        one-way edges, disconnected components; built by hand, from a node table, through NetworkReader, or with edges added
+        after the index exists; ids integers or strings"""
+        dec = rng.random() < 0.6
+        c = (lambda lo, hi: round(rng.uniform(lo, hi), 2)) if dec else (lambda lo, hi: float(rng.randint(int(lo), int(hi))))
+        nodes = {}
+        ncomp = 2 if rng.random() < 0.25 else 1
+        for k in range(rng.randint(3, 7)):
+            off = 0.0 if (ncomp == 1 or k % 2 == 0) else 40.0          # second component far to the east
+            nodes[10 + k] = (c(0, 14) + off, c(0, 14))
+        ids = list(nodes)
+        merged = rng.random() < 0.6
+        edges = []
+        pairs = []
+        for _ in range(rng.randint(2, 7)):
+            r = rng.random()
+            if r < 0.12:
+                a = b = rng.choice(ids)                                 # loop
+            elif r < 0.27 and pairs:
+                a, b = rng.choice(pairs)                                # parallel edge (or its reverse)
+                if rng.random() < 0.4:
+                    a, b = b, a
+            else:
+                a, b = rng.sample(ids, 2)
+                if ncomp == 2 and (a % 2) != (b % 2):
+                    b = rng.choice([i for i in ids if i % 2 == a % 2])  # keep the components apart
+            pairs.append((a, b))
+            def end(i):
+                x, y = nodes[i]
+                if merged and rng.random() < 0.5:                       # digitised separately: ends near the node, not on it
+                    m = rng.choice([0.01, 0.05, 0.2, 0.6])
+                    return [round(x + rng.uniform(-m, m), 3), round(y + rng.uniform(-m, m), 3)]
+                return [x, y]
+            pa, pb = end(a), end(b)
+            nv = rng.choice([0, 0, 1, 1, 2, 3, 5, 8, 11])
+            if a == b:
+                nv = max(nv, 2)
+            g = [pa]
+            for j in range(nv):
+                t = (j + 1) / (nv + 1)
+                bx, by = pa[0] + t * (pb[0] - pa[0]), pa[1] + t * (pb[1] - pa[1])
+                amp = rng.choice([0.0, 0.5, 1.5, 3.0]) if a != b else rng.choice([1.5, 3.0])
+                v = [bx + rng.uniform(-amp, amp), by + rng.uniform(-amp, amp)]
+                v = [round(v[0], 2), round(v[1], 2)] if dec else [round(v[0] * 2) / 2, round(v[1] * 2) / 2]
+                g.append(v)
+            g.append(pb)
+            if rng.random() < 0.2:                                      # repeated vertices (zero-length segments)
+                j = rng.randrange(len(g))
+                g = g[:j + 1] + [list(g[j])] * rng.choice([1, 1, 2]) + g[j + 1:]
+            if len({tuple(v) for v in g}) == 1:
+                g = [g[0], [g[0][0] + 1.0, g[0][1] + 0.5]] + g[1:]      # (zero-length edges are made below, on purpose)
+            edges.append({"s": a, "t": b, "g": [[float(x), float(y)] for x, y in g], "o": rng.choice([0, 0, 0, 1, -1])})
+        zero = None
+        if rng.random() < 0.12:
+            # a zero-length edge (all its vertices coincide). Where it can become a candidate mapOnNetwork raises
+            # UnboundLocalError (class zero-length-edge-unbound); while that class is not a listed finding the edge is put
+            # where no observation comes (far corner), so that it still takes an edge number and a place in the index
+            i = rng.choice(ids)
+            pos = list(nodes[i]) if "zero-length-edge-unbound" in self.listed else [-60.0, -60.0 - rng.randint(0, 5)]
+            zero = {"s": i if "zero-length-edge-unbound" in self.listed else 77, "t": 78, "g": [[float(pos[0]), float(pos[1])]] * rng.choice([2, 3]), "o": 0}
+            edges.insert(rng.randrange(len(edges) + 1), zero)
+        eids = rng.sample(range(1, 90), len(edges))
+        for e, i in zip(edges, eids):
+            e["id"] = i
+        via = rng.choice(["direct", "direct", "table", "reader", "late"])
+        late = rng.randint(1, max(1, len(edges) - 1))
+        res, margin, ax = self.index_params(rng, edges, upto=max(1, len(edges) - late) if via == "late" else None)
+        radius = rng.choice([0.5, 1.0, 2.0, 3.0, 5.5, 10.0])
+        live = self.live_edges(edges)
+        track = self.gen_track(rng, "decimal" if dec else "grid", live, radius, ax, short=rng.random() < 0.3)
+        case = {"kind": "net", "stream": "real", "edges": edges, "res": res, "margin": margin, "track": track,
+                "radius": radius, "noise": rng.choice([1.0, 5.0, 50.0])}
+        if via == "table":
+            case["nodes"] = {str(i): [float(nodes[i][0]), float(nodes[i][1])] for i in ids if rng.random() < 0.8}
+        if via == "late":
+            case["late"] = late
+        if via in ("direct", "table", "late") and rng.random() < 0.3:
+            case["strids"] = True
+        if via != "direct":
+            case["via"] = via
+        return case
+
+    def live_edges(self, edges):
+        """the edges observations are generated around: those that have a length and — while the class
+        zero-length-edge-unbound is not a listed finding — are not next to a zero-length edge"""
+        zs = [e["g"][0] for e in edges if len({tuple(p) for p in e["g"]}) == 1]
+        live = [e for e in edges if len({tuple(p) for p in e["g"]}) > 1]
+        if zs and "zero-length-edge-unbound" not in self.listed:
+            live = [e for e in live if all(math.hypot(p[0] - z[0], p[1] - z[1]) > 30.0 for p in e["g"] for z in zs)] or live[:0]
+        return live or [{"g": [[200.0, 200.0], [203.0, 204.0]]}]
+
+    def gen_track(self, rng, stream, edges, radius, ax, home=None, avoid_vertical=False, short=False):
         """1..7 observations on / near / far from / outside the network; `home` = edges the track stays around"""
         track = []
-        for _ in range(rng.randint(1, 7)):
+        for _ in range(rng.randint(1, 2) if short else rng.randint(1, 7)):
             e = rng.choice(home if home else edges)
             i = rng.randrange(len(e["g"]) - 1)
             (x1, y1), (x2, y2) = e["g"][i], e["g"][i + 1]
@@ -203,9 +341,12 @@ class P(Prop):
         """several mapOnNetwork calls on the SAME network / index objects: collections of 2..3 tracks that are not
         co-located, tracks matched again in a later call (their obs_noise / hmm_* columns already exist), user
         features with those names, radii and noise changing from call to call"""
-        base = self.random_case(rng, stream)
+        base = self.real_case(rng) if stream == "real" else self.random_case(rng, stream)
         edges = base["edges"]
-        xs = [p[0] for e in edges for p in e["g"]]
+        if stream == "real":
+            edges = self.live_edges(edges)
+            stream = "decimal"
+        xs = [p[0] for e in base["edges"] for p in e["g"]]
         ax = max(xs) - min(xs)
         ntr = rng.randint(2, 4)
         tracks = []
@@ -225,13 +366,32 @@ class P(Prop):
                           "noise": rng.choice([1.0, 5.0, 50.0]), "bare": m == 1 and rng.random() < 0.6})
         if rng.random() < 0.3:
             calls.reverse()
+        for c in calls:                         # the other arguments of the front end
+            r = rng.random()
+            if r < 0.15:
+                c["tc"] = rng.choice([1.0, 10, 200.0])
+            elif r < 0.25:
+                c["debug"] = True
+            elif r < 0.32:
+                c["verbose"] = True
+            elif r < 0.40:
+                c["positional"] = True
+                c["tc"] = rng.choice([5, 10])
+            elif r < 0.50 and not c["bare"]:
+                c["form"] = "list"
         pre = {}
         for k in range(ntr):
             if rng.random() < 0.25:
                 pre[str(k)] = rng.choice([{"obs_noise": 3.0}, {"hmm_inference": 0.0}, {"hmm_cost": 0.0, "speed": 1.5},
                                           {"speed": 2.5}, {"obs_noise": 20.0, "hmm_inference": 0.0, "hmm_cost": 0.0}])
-        return {"kind": "session", "stream": "session-" + stream, "edges": edges, "res": base["res"], "margin": base["margin"],
-                "tracks": tracks, "calls": calls, "pre": pre}
+        out = {"kind": "session", "stream": "session-" + base["stream"], "edges": base["edges"], "res": base["res"], "margin": base["margin"],
+               "tracks": tracks, "calls": calls, "pre": pre}
+        for k in ("via", "nodes", "late", "strids"):
+            if k in base:
+                out[k] = base[k]
+        if rng.random() < 0.3:
+            out["warm"] = rng.choice([1, 2, 9])     # the module was used before, on another network, for a track of that many observations
+        return out
 
     @staticmethod
     def as_session(case):
@@ -251,7 +411,26 @@ class P(Prop):
         for c in S["calls"]:
             rematch = rematch or any(t in seen for t in c["t"])
             seen.update(c["t"])
+        ends = {}
+        gap = False
+        for e in case["edges"]:
+            for nid, p in ((e["s"], e["g"][0]), (e["t"], e["g"][-1])):
+                q = (case.get("nodes") or {}).get(str(nid)) if case.get("via") == "table" else None
+                q = ends.setdefault(nid, q or p)
+                gap = gap or list(q) != list(p)
+        pairs = [frozenset((e["s"], e["t"])) for e in case["edges"]]
+        shape = "".join(sorted(set(
+            (["L"] if any(e["s"] == e["t"] for e in case["edges"]) else []) +
+            (["P"] if len(set(pairs)) < len(pairs) else []) +
+            (["1"] if any(e.get("o", 0) != 0 for e in case["edges"]) else []) +
+            (["Z"] if any(len({tuple(p) for p in e["g"]}) == 1 for e in case["edges"]) else []) +
+            (["R"] if any(e["g"][i] == e["g"][i + 1] for e in case["edges"] for i in range(len(e["g"]) - 1)) else []) +
+            (["M"] if max(len(e["g"]) for e in case["edges"]) >= 6 else []))))
         return {"kind": case["kind"], "stream": case.get("stream", "?"), "edges": len(case["edges"]),
+                "via": case.get("via", "direct") + ("+strids" if case.get("strids") else ""), "node_gap": gap, "shape": shape,
+                "warm": bool(case.get("warm")),
+                "args": "".join(sorted(set("".join(("t" if "tc" in c else "") + ("d" if c.get("debug") else "") + ("v" if c.get("verbose") else "") +
+                                                        ("p" if c.get("positional") else "") + ("l" if c.get("form") == "list" else "") for c in S["calls"])))),
                 "obs": sum(len(t) for t in S["tracks"]), "calls": len(S["calls"]),
                 "max_tracks_per_call": max(len(c["t"]) for c in S["calls"]), "rematch": rematch, "pre_features": bool(S.get("pre")),
                 "orient": "".join(sorted(orient)), "multi_vertex": any(len(e["g"]) > 2 for e in case["edges"])}
@@ -269,20 +448,92 @@ class P(Prop):
         return False
 
     # ------------------------------------------------------------------ implementation
-    def build(self, case):
+    def edge_track(self, e):
         T = self.tl
-        net = T["Network"]()
-        for e in case["edges"]:
-            tr = T["Track"]([T["Obs"](T["E"](x, y, 0), T["ObsTime"]()) for x, y in e["g"]])
-            T["curv"](tr)
-            ed = T["Edge"](e["id"], tr)
-            ed.orientation = T["Edge"].DOUBLE_SENS
-            ed.weight = tr.length()
-            net.addEdge(ed, T["Node"](e["s"], tr.getFirstObs().position), T["Node"](e["t"], tr.getLastObs().position))
-        si = T["SI"](net, resolution=None if case["res"] is None else tuple(case["res"]), margin=case["margin"], verbose=False)
-        net.spatial_index = si
+        tr = T["Track"]([T["Obs"](T["E"](x, y, 0), T["ObsTime"]()) for x, y in e["g"]])
+        T["curv"](tr)
+        return tr
+
+    def add_edge(self, net, e, case):
+        """one edge the way hand-written builders (test/algo/test_mapping.py) and NetworkReader do it: computeAbsCurv on the
+        geometry, then Edge, then addEdge with nodes made from the end positions of the geometry (`via` = direct), or from a
+        separate node table (`via` = table: the node coordinates are their own objects and may differ from the end vertices)"""
+        T = self.tl
+        tr = self.edge_track(e)
+        conv = str if case.get("strids") else (lambda v: v)
+        ed = T["Edge"](conv(e["id"]), tr)
+        ed.orientation = e.get("o", 0)
+        ed.weight = tr.length()
+        tab = case.get("nodes") or {}
+        def node(nid, pos):
+            if case.get("via") == "table" and str(nid) in tab:
+                return T["Node"](conv(nid), T["E"](tab[str(nid)][0], tab[str(nid)][1], 0))
+            return T["Node"](conv(nid), pos)
+        net.addEdge(ed, node(e["s"], tr.getFirstObs().position), node(e["t"], tr.getLastObs().position))
+
+    def build(self, case):
+        """the network and its spatial index, through one of the construction paths (`via`):
+        direct / table : Network.addEdge edge by edge, index built on the complete network
+        reader         : the edges written as a CSV file (WKT geometries, ids, orientation) and read with NetworkReader.readFromFile
+        late           : index built on the first edges, attached to the network, the other edges added afterwards
+                         (Network.addEdge then registers them in the index itself)"""
+        T = self.tl
+        via = case.get("via", "direct")
+        si_args = dict(resolution=None if case["res"] is None else tuple(case["res"]), margin=case["margin"], verbose=False)
+        if via == "reader":
+            fmt = T["NF"]({"name": "c10", "pos_edge_id": 0, "pos_source": 1, "pos_target": 2, "pos_wkt": 3, "pos_direction": 4,
+                           "separator": ";", "header": 1, "srid": "ENU"})
+            with tempfile.TemporaryDirectory() as tmp:
+                path = os.path.join(tmp, "network.csv")
+                with open(path, "w") as fh:
+                    fh.write("edge;source;target;wkt;direction\n")
+                    for e in case["edges"]:
+                        fh.write("%s;%s;%s;LINESTRING(%s);%d\n" % (e["id"], e["s"], e["t"], ", ".join("%r %r" % (float(x), float(y)) for x, y in e["g"]), e.get("o", 0)))
+                net = T["NR"].readFromFile(path, fmt, verbose=False)
+            net.spatial_index = T["SI"](net, **si_args)
+        elif via == "late":
+            net = T["Network"]()
+            m = max(1, len(case["edges"]) - int(case.get("late", 1)))
+            for e in case["edges"][:m]:
+                self.add_edge(net, e, case)
+            net.spatial_index = T["SI"](net, **si_args)
+            for e in case["edges"][m:]:
+                self.add_edge(net, e, case)
+        else:
+            net = T["Network"]()
+            for e in case["edges"]:
+                self.add_edge(net, e, case)
+            net.spatial_index = T["SI"](net, **si_args)
         net.prepare(verbose=False)
         return net
+
+    @staticmethod
+    def net_geoms(net):
+        """the edge geometries AS THEY ARE in the network, by edge number (what `hmm_inference` refers to)"""
+        out = []
+        for k in range(net.getNumberOfEdges()):
+            g = net.EDGES[net.getEdgeId(k)].geom
+            out.append([[float(o.position.getX()), float(o.position.getY())] for o in g])
+        return out
+
+    @staticmethod
+    def net_state(net):
+        """what the construction left: geometries and abs_curv columns by edge number, node table in registration order,
+        grid parameters of the index"""
+        curv = []
+        for k in range(net.getNumberOfEdges()):
+            g = net.EDGES[net.getEdgeId(k)].geom
+            try:
+                curv.append([float(g["abs_curv", i]) for i in range(len(g))])
+            except BaseException as e:
+                if isinstance(e, KeyboardInterrupt):
+                    raise
+                curv.append(None)
+        si = net.spatial_index
+        return {"geoms": P.net_geoms(net), "curv": curv,
+                "nodes": [[str(i), float(net.NODES[i].coord.getX()), float(net.NODES[i].coord.getY())] for i in net.getIndexNodes()],
+                "ends": [[str(net.EDGES[net.getEdgeId(k)].source.id), str(net.EDGES[net.getEdgeId(k)].target.id)] for k in range(net.getNumberOfEdges())],
+                "grid": [float(si.xmin), float(si.xmax), float(si.ymin), float(si.ymax), int(si.csize), int(si.lsize)]}
 
     @staticmethod
     def state_row(s):
@@ -293,8 +544,15 @@ class P(Prop):
 
     @staticmethod
     def snap_track(o):
+        noise = None
+        if o.hasAnalyticalFeature("obs_noise"):
+            try:
+                noise = [float(o["obs_noise", k]) for k in range(o.size())]
+            except BaseException as e:
+                if isinstance(e, KeyboardInterrupt):
+                    raise
         return {"pos": [[b.position.getX(), b.position.getY(), b.position.getZ()] for b in o],
-                "t": [str(b.timestamp) for b in o], "n": o.size(), "features": list(o.getListAnalyticalFeatures())}
+                "t": [str(b.timestamp) for b in o], "n": o.size(), "features": list(o.getListAnalyticalFeatures()), "noise": noise}
 
     def impl(self, case):
         """runs the whole session on ONE network / index and the same Track objects; output: per call, per track"""
@@ -307,14 +565,30 @@ class P(Prop):
         except BaseException as e:   # building the network / its index is a precondition, not the property
             if isinstance(e, KeyboardInterrupt):
                 raise
-            self._cache[key] = []
-            return {"invalid": "network or spatial index cannot be built: %s %s" % (err_kind(e), str(e)[:100])}
+            self._cache[key] = ([], None)
+            return {"invalid": "network or spatial index cannot be built: %s %s" % (err_kind(e), str(e)[:100]), "kind": err_kind(e)}
+        net0 = self.net_state(net)
         tracks = []
         for ti, pts in enumerate(S["tracks"]):
             trk = T["Track"]([T["Obs"](T["E"](x, y, 0), T["ObsTime"].readUnixTime(1000 * (ti + 1) + 10 * i)) for i, (x, y) in enumerate(pts)])
             for name, val in sorted((S.get("pre") or {}).get(str(ti), {}).items()):
                 trk.createAnalyticalFeature(name, val)
             tracks.append(trk)
+        # every case starts from the module as it is after import (the globals STATES / net do not exist yet) and leaves it so:
+        # what a case can read from earlier uses of the module is only what the case itself did (`warm`, earlier calls)
+        for name in ("STATES", "net"):
+            if hasattr(mp, name):
+                delattr(mp, name)
+        if S.get("warm"):
+            # module-level state left by an EARLIER use of the module on ANOTHER network (mapping.STATES, mapping.net):
+            # a one-edge network far away is matched first; nothing of it may be read by the calls of the session
+            try:
+                wnet = self.build({"edges": [{"id": 500, "s": 500, "t": 501, "g": [[1000.0, 1000.0], [1004.0, 1003.0]]}], "res": [1.0, 1.0], "margin": 0.3})
+                wt = T["Track"]([T["Obs"](T["E"](1001.0 + 2 * i, 1001.5 + i, 0), T["ObsTime"].readUnixTime(10 * i)) for i in range(S["warm"])])
+                mp.mapOnNetwork(wt, wnet, gps_noise=3.0, search_radius=2.0)
+            except BaseException as e:
+                if isinstance(e, KeyboardInterrupt):
+                    raise
         captured, snaps, done = [], [], []
         si = net.spatial_index
         orig = si.neighborhood
@@ -338,21 +612,44 @@ class P(Prop):
             done.append(True)
             return r
         HMM.estimate = est
-        saved = getattr(mp, "STATES", None)
         calls_out = []
         try:
             for call in S["calls"]:
                 objs = [tracks[i] for i in call["t"]]
                 before = [self.snap_track(o) for o in objs]
                 del captured[:], snaps[:], done[:]
-                arg = objs[0] if (call.get("bare") and len(objs) == 1) else self.tl["TC"](objs)
+                if call.get("bare") and len(objs) == 1:
+                    arg = objs[0]
+                elif call.get("form") == "list":
+                    arg = list(objs)                      # `for track in tracks` accepts any iterable of tracks
+                else:
+                    arg = self.tl["TC"](objs)
+                kw = dict(gps_noise=call["noise"], search_radius=call["radius"])
+                if "tc" in call:
+                    kw["transition_cost"] = call["tc"]
+                if call.get("verbose"):
+                    kw["verbose"] = True
                 err = None
+                cwd = os.getcwd()
+                tmp = None
                 try:
-                    mp.mapOnNetwork(arg, net, gps_noise=call["noise"], search_radius=call["radius"])
+                    if call.get("debug"):                 # debug=True appends to ./observation.dat
+                        tmp = tempfile.TemporaryDirectory()
+                        os.chdir(tmp.name)
+                        kw["debug"] = True
+                    if call.get("positional"):
+                        mp.mapOnNetwork(arg, net, call["noise"], call.get("tc", 10), call["radius"])
+                    else:
+                        mp.mapOnNetwork(arg, net, **kw)
                 except BaseException as e:
                     if isinstance(e, KeyboardInterrupt):
                         raise
                     err = {"err": err_kind(e), "detail": str(e)[:200]}
+                finally:
+                    os.chdir(cwd)
+                    if tmp is not None:
+                        tmp.cleanup()
+                geoms = self.net_geoms(net)
                 touts, pos = [], 0
                 for j, o in enumerate(objs):
                     n = o.size()
@@ -369,15 +666,16 @@ class P(Prop):
                         after = self.snap_track(o)
                         touts.append({"ti": call["t"][j], "cand": c, "states": [[self.state_row(st) for st in L] for L in states],
                                       "idx": idx, "inf": inf, "pos_after": after["pos"], "t_after": after["t"], "n_after": after["n"],
-                                      "features": after["features"], "before": before[j], "nedges": net.getNumberOfEdges()})
+                                      "features": after["features"], "noise_after": after["noise"], "before": before[j],
+                                      "nedges": net.getNumberOfEdges(), "geoms": geoms})
                     elif err and j == len(done):
                         states = snaps[j] if j < len(snaps) and snaps[j] is not None else (getattr(mp, "STATES", None) or [])
                         if j < len(snaps) and snaps[j] is None:
                             states = []
-                        t = {"ti": call["t"][j], "cand": c, "states": [[self.state_row(st) for st in L] for L in states]}
+                        t = {"ti": call["t"][j], "cand": c, "states": [[self.state_row(st) for st in L] for L in states], "before": before[j]}
                         t.update(err)
                         touts.append(t)
-                co = {"tracks": touts, "global_states_len": len(getattr(mp, "STATES", None) or [])}
+                co = {"tracks": touts, "global_states_len": len(getattr(mp, "STATES", None) or []), "geoms": geoms}
                 if err:
                     co.update(err)
                 calls_out.append(co)
@@ -385,24 +683,71 @@ class P(Prop):
                     break
         finally:
             HMM.estimate = orig_est
-            if saved is not None:
-                mp.STATES = saved
-        self._cache[key] = [(ci, t) for ci, co in enumerate(calls_out) for t in co["tracks"] if t["cand"]]
-        out = {"calls": calls_out}
+            for name in ("STATES", "net"):
+                if hasattr(mp, name):
+                    delattr(mp, name)
+        out = {"calls": calls_out, "net": net0}
+        self._cache[key] = ([(ci, t) for ci, co in enumerate(calls_out) for t in co["tracks"] if t["cand"]], out)
         if calls_out and "err" in calls_out[-1]:
             out["err"] = calls_out[-1]["err"]
             out["detail"] = calls_out[-1].get("detail")
         return out
 
     # ------------------------------------------------------------------ model
+    @staticmethod
+    def idmaps(case):
+        """node ids and edge ids -> naturals, injectively (the dictionaries of Network only compare ids for equality)"""
+        nm, em = {}, {}
+        for e in case["edges"]:
+            for v in (e["s"], e["t"]):
+                nm.setdefault(str(v), len(nm))
+            em.setdefault(str(e["id"]), len(em))
+        return nm, em
+
+    def net_request(self, case, out):
+        """the whole scenario for `Model/MapMatchNet`: the addEdge sequence with the Node objects handed over, the moment the index
+        is built, its parameters, then every call that ran with, per track, its features / obs_noise column before the call and
+        the decoder's choice given as edge numbers"""
+        S = self.as_session(case)
+        nm, em = self.idmaps(case)
+        tab = (case.get("nodes") or {}) if case.get("via") == "table" else {}
+        pt = lambda p: "%s,%s" % (fbits(float(p[0])), fbits(float(p[1])))
+        es = []
+        for e in case["edges"]:
+            ca = tab.get(str(e["s"]), e["g"][0])
+            cb = tab.get(str(e["t"]), e["g"][-1])
+            es.append("%d:%d:%d:%d:%s:%s:%s" % (em[str(e["id"])], nm[str(e["s"])], nm[str(e["t"])], e.get("o", 0), pt(ca), pt(cb),
+                                              ";".join(pt(p) for p in e["g"])))
+        late = min(int(case.get("late", 1)), len(case["edges"]) - 1) if case.get("via") == "late" else 0
+        res = "none" if case["res"] is None else pt(case["res"])
+        calls = []
+        for ci, co in enumerate((out or {}).get("calls", [])):
+            call = S["calls"][ci]
+            ts = []
+            for t in co["tracks"]:
+                b = t["before"]
+                pts = S["tracks"][t["ti"]]
+                names = ",".join(b["features"]) or "_"
+                noise = ",".join(fbits(v) for v in b["noise"]) if b.get("noise") else "_"
+                if "err" in t or "inf" not in t or any(len(r) != 5 or r[0] == "?" for r in t["inf"]):
+                    ch = "x"
+                else:
+                    ch = ",".join(str(r[2]) for r in t["inf"]) or "_"
+                ts.append("%s~%s~%s~%s" % (names, noise, ";".join(pt(p) for p in pts) or "_", ch))
+            if not ts:
+                continue
+            one = bool(call.get("bare")) and len(call["t"]) == 1
+            calls.append("%s:%s:%s:%s" % (fbits(call["radius"]), fbits(call["noise"]), "one" if one else "many", "/".join(ts)))
+        return "C10.net %s %d %s %s%s" % ("|".join(es), late, res, fbits(case["margin"]), "".join(" " + c for c in calls))
+
     def requests(self, case):
         key = json.dumps(case, sort_keys=True)
         if key not in self._cache:
             self.impl(case)
         S = self.as_session(case)
         es = "|".join(";".join("%s,%s" % (fbits(p[0]), fbits(p[1])) for p in e["g"]) for e in case["edges"])
-        lines = []
-        for ci, t in self._cache[key]:
+        lines = [self.net_request(case, self._cache[key][1])]
+        for ci, t in self._cache[key][0]:
             cand, idx = t["cand"], t.get("idx")
             n = len(cand)
             track = S["tracks"][t["ti"]][:n]
@@ -437,10 +782,106 @@ class P(Prop):
         inf = self.parse_states(r[3]) if r[3] != "_" else None
         return {"states": states, "inf": inf}
 
+    NERR = {"Ezerodiv": "err:zerodiv", "Eunbound": "err:UnboundLocalError", "Eindex": "err:index", "Etype": "err:type", "Eexit": "err:exit",
+            "Enoindex": "err:AttributeError", "Eempty": "err:AnalyticalFeatureError"}
+
+    def decode_net(self, reply):
+        r = reply.split(" ")
+        if r[0].startswith("err:"):
+            return {"err": r[0]}
+        if r[0] != "ok":
+            raise ValueError(reply[:200])
+        fl = lambda tok: [bitsf(v) for v in tok.split(",")] if tok != "_" else []
+        geoms = [[fl(v) for v in g.split(";")] if g != "_" else [] for g in r[1].split("|")] if r[1] != "_" else []
+        curvs = [fl(c) for c in r[2].split("|")] if r[2] != "_" else []
+        nodes = [[int(a.split(",")[0]), bitsf(a.split(",")[1]), bitsf(a.split(",")[2])] for a in r[3].split(";")] if r[3] != "_" else []
+        ends = [[int(v) for v in a.split(",")] for a in r[4].split(";")] if r[4] != "_" else []
+        g = r[5].split(",")
+        grid = None if r[5] == "none" else [bitsf(g[0]), bitsf(g[1]), bitsf(g[2]), bitsf(g[3]), int(g[4]), int(g[5])]
+        calls = []
+        for tok in r[6:]:
+            ts = []
+            for t in tok.split("/"):
+                if t.startswith("E"):
+                    ts.append({"err": self.NERR.get(t, t)})
+                    continue
+                f = t.split("#")
+                ts.append({"states": [self.parse_states(x) for x in f[0].split("|")] if f[0] != "_" else [],
+                           "inf": self.parse_states(f[1]) if f[1] != "_" else None,
+                           "names": f[2].split(",") if f[2] != "_" else [], "noise": fl(f[3]),
+                           "pos": [fl(x) for x in f[4].split(";")] if f[4] != "_" else []})
+            calls.append(ts)
+        return {"geoms": geoms, "curv": curvs, "nodes": nodes, "ends": ends, "grid": grid, "calls": calls}
+
     def decode(self, case, replies):
-        return {"tracks": [self.decode_one(r) for r in replies]}
+        return {"net": self.decode_net(replies[0]), "tracks": [self.decode_one(r) for r in replies[1:]]}
+
+    def compare_net(self, case, impl_out, m):
+        """construction path, index and front end: `Model/MapMatchNet` against the real network / tracks"""
+        if "invalid" in impl_out:
+            if "err" not in m:
+                return "the network / index cannot be built (%s), the model builds it" % impl_out["invalid"]
+            return None if m["err"] == impl_out.get("kind") else "construction raised %s, model says %s" % (impl_out.get("kind"), m["err"])
+        if "err" in m:
+            return "the model's construction raises %s, the real one returned" % m["err"]
+        net = impl_out["net"]
+        nm, em = self.idmaps(case)
+        if m["geoms"] != net["geoms"]:
+            return "edge geometries in the network differ from the model's (addEdge stores the geometry as given): impl=%s model=%s" % (
+                json.dumps(net["geoms"])[:300], json.dumps(m["geoms"])[:300])
+        if not close(net["curv"], m["curv"], self.rel_tol):
+            return "abs_curv columns of the edge geometries differ: impl=%s model=%s" % (json.dumps(net["curv"])[:300], json.dumps(m["curv"])[:300])
+        if [[nm.get(a[0], -1), a[1], a[2]] for a in net["nodes"]] != m["nodes"]:
+            return "node table differs: impl=%s model=%s" % (json.dumps(net["nodes"])[:300], json.dumps(m["nodes"])[:300])
+        if [[nm.get(a, -1), nm.get(b, -1)] for a, b in net["ends"]] != m["ends"]:
+            return "edge ends differ: impl=%s model=%s" % (net["ends"], m["ends"])
+        if m["grid"] is None or not close(net["grid"][:4], m["grid"][:4], self.rel_tol) or net["grid"][4:] != m["grid"][4:]:
+            return "spatial index extent / dimensions differ: impl=%s model=%s" % (net["grid"], m["grid"])
+        for ci, co in enumerate(impl_out["calls"]):
+            if co.get("geoms") is not None and co["geoms"] != net["geoms"]:
+                return "call %d: mapOnNetwork changed the edge geometries of the network (the model never writes to the network)" % ci
+        cos = [co for co in impl_out["calls"] if co["tracks"]]
+        if len(cos) != len(m["calls"]):
+            return "%d calls ran, %d model calls" % (len(cos), len(m["calls"]))
+        key = lambda row: (row[2], row[0], row[1])
+        for ci, (co, mc) in enumerate(zip(cos, m["calls"])):
+            if len(mc) > len(co["tracks"]):
+                return "call %d: %d tracks, model %d" % (ci, len(co["tracks"]), len(mc))
+            for t, mt in zip(co["tracks"], mc):
+                where = "call %d, track %d (composed model): " % (ci, t["ti"])
+                if "err" in t or "err" in mt:
+                    if t.get("err") != mt.get("err") and t.get("err") in ("err:zerodiv", "err:UnboundLocalError", "err:index"):
+                        return where + "impl raised %s, model says %s" % (t.get("err"), mt.get("err", "no error"))
+                    if "err" in mt and "err" not in t:
+                        return where + "model raised %s, impl returned" % mt["err"]
+                    if "err" in mt:
+                        continue
+                # STATES[i] up to the order of the candidates (list(set) in Python)
+                ist = [sorted(L, key=key) for L in t["states"]]
+                mst = [sorted(L, key=key) for L in mt["states"]]
+                if "err" in t:
+                    ist = ist[:len(mst)]
+                    if len(mst) < len(t["states"]) - 1:
+                        return where + "model STATES shorter than the real ones"
+                    mst = mst[:len(ist)]
+                if not close(ist, mst, self.rel_tol):
+                    return where + "STATES differ as sets: impl=%s model=%s" % (json.dumps(ist)[:300], json.dumps(mst)[:300])
+                if "err" in t:
+                    continue
+                if mt["inf"] is None or not close(t["inf"], mt["inf"], self.rel_tol):
+                    return where + "hmm_inference differs: impl=%s model=%s" % (json.dumps(t["inf"])[:300], json.dumps(mt["inf"])[:300])
+                if sorted(t["features"]) != sorted(mt["names"]) or t["features"][:len(t["before"]["features"])] != mt["names"][:len(t["before"]["features"])]:
+                    return where + "feature names: impl=%s model=%s" % (t["features"], mt["names"])
+                if t.get("noise_after") is not None and not close(t["noise_after"], mt["noise"], self.rel_tol):
+                    return where + "obs_noise column: impl=%s model=%s" % (t["noise_after"], mt["noise"])
+                if [p[:2] for p in t["pos_after"]] != mt["pos"]:
+                    return where + "positions after the call: impl=%s model=%s" % (t["pos_after"][:4], mt["pos"][:4])
+        return None
 
     def compare(self, case, impl_out, model_out):
+        w = self.compare_net(case, impl_out, model_out["net"])
+        if w:
+            return w
         if "invalid" in impl_out:
             return None
         touts = [(ci, t) for ci, co in enumerate(impl_out["calls"]) for t in co["tracks"] if t["cand"]]
@@ -491,9 +932,13 @@ class P(Prop):
         for v in (px, py, d0, d1):
             if v != v or math.isinf(v):
                 return "observation %d: non-finite state %s" % (k, row)
-        if not (0 <= elem < len(case["edges"])):
-            return "observation %d: edge number %s does not exist (0..%d)" % (k, elem, len(case["edges"]) - 1)
-        g = case["edges"][elem]["g"]
+        # the geometry of edge number `elem` AS IT IS in the network (Edge.geom read back after the call), not as it was given
+        geoms = case["geoms"]
+        if not (0 <= elem < len(geoms)):
+            return "observation %d: edge number %s does not exist (0..%d)" % (k, elem, len(geoms) - 1)
+        g = geoms[elem]
+        if len(g) < 2:
+            return "observation %d: edge number %d has no geometry to lie on (%d vertices)" % (k, elem, len(g))
         X, Y = [p[0] for p in g], [p[1] for p in g]
         segs = segments(X, Y)
         sc = max([1.0] + [abs(v) for v in X + Y + [q[0], q[1]]])
@@ -547,7 +992,8 @@ class P(Prop):
         S = self.as_session(case)
         for ci, co in enumerate(out["calls"]):
             for t in co["tracks"]:
-                yield ci, co, {"edges": case["edges"], "track": S["tracks"][t["ti"]], "radius": S["calls"][ci]["radius"]}, t
+                yield ci, co, {"edges": case["edges"], "track": S["tracks"][t["ti"]], "radius": S["calls"][ci]["radius"],
+                               "geoms": t.get("geoms") or co.get("geoms") or [e["g"] for e in case["edges"]]}, t
 
     def spec(self, case, out):
         if "invalid" in out:
@@ -597,12 +1043,14 @@ class P(Prop):
                     if x1 == x2 and y1 != y2 and q[0] == x1 and min(y1, y2) <= (y2 - y1) <= max(y1, y2):
                         return "vertical-segment-zerodiv"
             return None
-        if impl_out["err"] == "err:OverflowError" and len(cand) == len(case["track"]):
-            # exp(-(dtopo - dgeom) / 10) in the transition model: two consecutive observations farther apart than ~7.1 km
-            t = case["track"]
-            for k in range(len(t) - 1):
-                if math.hypot(t[k + 1][0] - t[k][0], t[k + 1][1] - t[k][1]) > OVERFLOW_JUMP - 2 * case["radius"]:
-                    return "far-jump-overflow"
+        if impl_out["err"] == "err:UnboundLocalError" and cand and cand[-1]:
+            # proj_polyligne skips every segment of a geometry all of whose vertices coincide and then reads xproj, which
+            # was never assigned: a zero-length edge among the candidates of the observation being processed
+            for elem in cand[-1]:
+                g = case["geoms"][elem] if 0 <= elem < len(case["geoms"]) else []
+                if len(g) >= 2 and all(abs(g[j][0] - g[j + 1][0]) + abs(g[j][1] - g[j + 1][1]) < 1e-16 for j in range(len(g) - 1)):
+                    return "zero-length-edge-unbound"
+            return None
         return None
 
     # ------------------------------------------------------------------ shrinking / search
@@ -647,3 +1095,11 @@ class P(Prop):
         for r in (0.5, 1.0, 2.0, 5.5):
             if r != case["radius"]:
                 yield dict(case, radius=r)
+
+
+# ---- tie to the source by translation (tools/py2lean.py -> lean/TracklibVerif/Gen/Geometry.lean, regenerated on every run)
+P.tie_modules = ["TracklibVerif.Tie.C10"]
+P.theorems = P.theorems + [
+    ("TracklibVerif.Tie.C10", "TV.Tie.C10.tie_proj_segment", "the Lean translation of the CURRENT source of geometry.proj_segment (with cartesienne, projection_droite) equals the model's projSegment on all arguments, exceptions included"),
+    ("TracklibVerif.Tie.C10", "TV.Tie.C10.tie_projection_droite", "the translation of the CURRENT source of geometry.projection_droite equals the model's projectionDroite on all arguments"),
+]
